@@ -161,6 +161,20 @@ def misc_cases(tier):
                 for a in positions(nt, bt):
                     for c in positions(nf, bf):
                         yield {"sp": "misc", "t": t, "g": [["point", [a, c]]]}
+                # rectangles with a rectangular hole (Polygon and MultiPolygon): the cells of the hole stay unmarked
+                if nt >= 3 and nf >= 3:
+                    for shift in (0.0, 0.25):
+                        shell = [[0.0, 0.0], [float(nt), 0.0], [float(nt), float(nf)], [0.0, float(nf)]]
+                        for a, b in itertools.combinations(range(1, nt), 2):
+                            for c, d in itertools.combinations(range(1, nf), 2):
+                                a_, b_, c_, d_ = a - shift, b + shift, c - shift, d + shift
+                                hole = [[a_, c_], [a_, d_], [b_, d_], [b_, c_]]
+                                yield {"sp": "misc", "t": t, "g": [["polyh", [shell, hole]]]}
+                                yield {"sp": "misc", "t": t, "g": [["mpolyh", [[shell, hole]]]]}
+                                part1 = [[[0.0, 0.0], [nt - 0.75, 0.0], [nt - 0.75, float(nf)], [0.0, float(nf)]], hole]
+                                part2 = [[[nt - 0.25, 0.0], [float(nt), 0.0], [float(nt), float(nf)]]]
+                                if b_ < nt - 0.75:
+                                    yield {"sp": "misc", "t": t, "g": [["mpolyh", [part1, part2]]]}
                 # 2-point line strings between lattice points of the corner / centre set
                 T, F = float(nt), float(nf)
                 ends = [(0.0, 0.0), (T, 0.0), (0.0, F), (T, F), (0.5, 0.5), (T - 0.5, F - 0.5)]
@@ -259,6 +273,7 @@ def bounds(tier):
         "FULL tri": "single Polygon triangles, every 3-subset of the (nt+1)(nf+1) lattice points, x size x order x "
                     "all_touched for (cfg, shift, max size) in %s" % (tri_plan(tier),),
         "FULL misc": "cfg in %s x size x order x all_touched x {4-vertex rectangle polygons (integer and half-shifted), "
+                     "full-template rectangles with every integer (and quarter-widened) rectangular hole as Polygon and as 1- and 2-part MultiPolygon (sizes >= 3x3), "
                      "time intervals (all edge pairs), time stamps (all positions), points (all positions^2), 2-point "
                      "line strings over 6 anchor points}" % (["A", "D"] if q else ["A", "B", "C", "D"]),
         "FULL list": "every ordered list (with repetition, hence both orders of every pair) of length 0..%d over the "
@@ -331,11 +346,15 @@ def real_coords(kind, c, cfg):
         return T(c)
     if kind == "point":
         return [T(c[0]), Fq(c[1])]
+    if kind == "polyh":
+        return [[[T(u), Fq(v)] for u, v in ring] for ring in c]
+    if kind == "mpolyh":
+        return [[[[T(u), Fq(v)] for u, v in ring] for ring in poly] for poly in c]
     return [[T(u), Fq(v)] for u, v in c]  # poly ring / line
 
 
 GEOM_TYPE = {"box": "BoundingBox", "interval": "TimeInterval", "stamp": "TimeStamp", "point": "Point",
-             "poly": "Polygon", "line": "LineString"}
+             "poly": "Polygon", "line": "LineString", "polyh": "Polygon", "mpolyh": "MultiPolygon"}
 
 
 def make_geometry(kind, rc):
